@@ -217,3 +217,22 @@ package lunarcontext
 //@   loop 1 modifies allof(memoryQueue.queue), allof(memoryQueue.gheap), now
 //@   loop 1 invariant[kept] heapKept(q)
 //@   ensures[only-container-heap-rearranges-the-queue] heapKept(q)
+
+// Every queue processor gets a queue of its OWN: two processors on the same quota id each have their own table of
+// waiters and background loop, and a loop drops popped ids it does not know - sharing one heap would make them remove
+// each other's waiting requests. Asking for a queue never hands out one that already exists.
+//@ extern heap.Init
+//@   modifies nothing
+//@ extern fmt.Sprintf
+//@   modifies nothing
+//@ func NewMemoryQueue
+//@   prop C06
+//@   modifies nothing
+//@   allocates memoryQueue
+//@   ensures[a-queue-of-its-own] typeis(result, *memoryQueue) && result.(*memoryQueue) != nil && !old(allocated(result.(*memoryQueue)))
+//@ func (*memoryState).NewQueue
+//@   prop C06
+//@   instantiate T=[]byte
+//@   modifies nothing
+//@   allocates memoryQueue
+//@   ensures[a-queue-of-its-own] typeis(result, *memoryQueue) && result.(*memoryQueue) != nil && !old(allocated(result.(*memoryQueue)))
